@@ -1,14 +1,8 @@
 import MakoModel.Props.C15
-#print axioms MakoModel.C15.rewrite_iff_due_partial
 #print axioms MakoModel.C15.rewrite_iff_due
 #print axioms MakoModel.C15.writer_called_iff_due
-#print axioms MakoModel.C15.path_never_partial_partial
-#print axioms MakoModel.C15.path_never_partial_counterexample
 #print axioms MakoModel.C15.path_never_partial
-#print axioms MakoModel.C15.after_rewrite_current_partial
-#print axioms MakoModel.C15.after_rewrite_current_fixed
 #print axioms MakoModel.C15.after_rewrite_current
-#print axioms MakoModel.C15.after_rewrite_current_counterexample
 #print axioms MakoModel.C15.concurrent_writers_safe
 #print axioms MakoModel.C15.concurrent_loader_sees_complete
 #print axioms MakoModel.C15.verify_directory_bounded
